@@ -502,6 +502,13 @@ func c13R5(c *Ctx) {
 		if nPark == 0 {
 			c.bad(ps.fn+"/park", c.pos(f.Pos()), "the pump never parks chunks during a handshake")
 		}
+		// the tunnel pumps look up which relay they belong to for every chunk (resetToStandby detaches an old tunnel by
+		// clearing that pointer; a value read once before the loop keeps a finished transfer's pumps attached)
+		for _, ci := range callsIn(f, anyID) {
+			if isAtomicOnField(ci, "relay", "Load") {
+				c.check(domI(read, ci.(ssa.Instruction)), ps.fn+"/relay-looked-up-per-chunk", c.ipos(ci), "the owning relay is looked up after each read", "the owning relay is read once before the loop: after a reset the old tunnel's pumps still park into / reset the relay")
+			}
+		}
 		// the pump ends only when its source reported EOF
 		rerr := extractOf(read, 1)
 		eofEdge := func(from, to *ssa.BasicBlock) bool {
